@@ -66,28 +66,37 @@ Definition out_eqb (a b : out E) : bool :=
 
 Definition is_pow2 (c : Z) : bool := (0 <? c) && (Z.land c (c - 1) =? 0).
 
-(* walk the history: model step vs observation (mismatch codes 1..4), spec step vs
-   observation (property codes 1..3) *)
-Fixpoint deque_walk (d : deque) (l : list E) (minc : Z) (ops : list (op E)) (rs : list dres) : verdict * deque :=
+(* walk the history: spec step vs observation (property codes 1..3) at every call; model
+   step vs observation (mismatch codes 1..3) until the first mismatch, which is remembered
+   in [first] while the walk goes on looking for a property failure (live = false: the
+   model is no longer compared) *)
+Fixpoint deque_walk (first : verdict) (live : bool) (d : deque) (l : list E) (minc : Z)
+         (ops : list (op E)) (rs : list dres) : verdict * bool * deque :=
   match ops, rs with
-  | [], [] => (VOk, d)
+  | [], [] => (first, live, d)
   | o :: ops', r :: rs' =>
-      let '(d1, mo) := step None d o in
       let '(l1, so) := spec_step l o in
-      let corr :=
-        vjoin (check_that (out_eqb mo (r_out r)) (VMismatch 1))
-       (vjoin (check_that ((count d1 =? r_len r) && (cap d1 =? r_cap r)) (VMismatch 2))
-              (check_that ((head d1 =? r_head r) && (tail d1 =? r_tail r)) (VMismatch 3))) in
       let prop :=
         vjoin (check_that (out_eqb so (r_out r)) (VPropFail (match so with OPanic => 2 | _ => 1 end)))
        (vjoin (check_that (zlen l1 =? r_len r) (VPropFail 1))
               (check_that ((r_cap r =? 0) || (is_pow2 (r_cap r) && (minc <=? r_cap r) && (r_len r <=? r_cap r)))
                           (VPropFail 3))) in
-      match vjoin prop corr with
-      | VOk => deque_walk d1 l1 minc ops' rs'
-      | v => (v, d1)
+      match prop with
+      | VOk =>
+          if live then
+            let '(d1, mo) := step None d o in
+            let corr :=
+              vjoin (check_that (out_eqb mo (r_out r)) (VMismatch 1))
+             (vjoin (check_that ((count d1 =? r_len r) && (cap d1 =? r_cap r)) (VMismatch 2))
+                    (check_that ((head d1 =? r_head r) && (tail d1 =? r_tail r)) (VMismatch 3))) in
+            match corr with
+            | VOk => deque_walk first true d1 l1 minc ops' rs'
+            | v => deque_walk v false d1 l1 minc ops' rs'
+            end
+          else deque_walk first false d l1 minc ops' rs'
+      | v => (v, live, d)
       end
-  | _, _ => (VBad, d)
+  | _, _ => (VBad, live, d)
   end.
 
 Definition check_deque (ctor : list sx) (ops : list sx) (rs : list sx) (minc : Z) (bufv : list sx) : verdict :=
@@ -104,11 +113,11 @@ Definition check_deque (ctor : list sx) (ops : list sx) (rs : list sx) (minc : Z
           (* the minimum capacity the property speaks about: the configured one (16 when
              none was configured) *)
           let minc_cfg := if minCap d0 =? 0 then 16 else minCap d0 in
-          match deque_walk d0 [] minc_cfg ops rs with
-          | (VOk, dn) =>
+          match deque_walk VOk true d0 [] minc_cfg ops rs with
+          | (VOk, true, dn) =>
               vjoin (check_that (list_eqb e_eqb (buf dn) bufv) (VMismatch 4))
                     (check_that (minCap dn =? minc) (VMismatch 5))
-          | (v, _) => v
+          | (v, _, _) => v
           end
       end
   | _, _, _ => VBad
@@ -126,6 +135,7 @@ Definition dec_uop (tagged : bool) (s : sx) : option (uop E) :=
   | Some (SInt 1 :: _) => Some UPop
   | Some (SInt 2 :: _) => Some UFront
   | Some (SInt 3 :: _) => Some ULen
+  | Some (SInt 4 :: _) => Some UInit
   | _ => None
   end.
 
@@ -155,23 +165,30 @@ Definition uout_eqb (a b : uout E) : bool :=
   | _, _ => false
   end.
 
-Fixpoint fifo_walk (mf mi : Z) (q : uq) (l : list E) (ops : list (uop E)) (rs : list ures) : verdict * uq :=
+Fixpoint fifo_walk (first : verdict) (live : bool) (mf mi : Z) (q : uq) (l : list E)
+         (ops : list (uop E)) (rs : list ures) : verdict * bool * uq :=
   match ops, rs with
-  | [], [] => (VOk, q)
+  | [], [] => (first, live, q)
   | o :: ops', r :: rs' =>
-      let '(q1, mo) := ustep None mf mi q o in
       let '(l1, so) := fifo_step l o in
-      let corr :=
-        vjoin (check_that (uout_eqb mo (u_out r)) (VMismatch 6))
-              (check_that ((hp q1 =? u_hp r) && (qlen q1 =? u_len r)) (VMismatch 7)) in
       let prop :=
         vjoin (check_that (uout_eqb so (u_out r)) (VPropFail 4))
               (check_that (zlen l1 =? u_len r) (VPropFail 4)) in
-      match vjoin prop corr with
-      | VOk => fifo_walk mf mi q1 l1 ops' rs'
-      | v => (v, q1)
+      match prop with
+      | VOk =>
+          if live then
+            let '(q1, mo) := ustep None mf mi q o in
+            let corr :=
+              vjoin (check_that (uout_eqb mo (u_out r)) (VMismatch 6))
+                    (check_that ((hp q1 =? u_hp r) && (qlen q1 =? u_len r)) (VMismatch 7)) in
+            match corr with
+            | VOk => fifo_walk first true mf mi q1 l1 ops' rs'
+            | v => fifo_walk v false mf mi q1 l1 ops' rs'
+            end
+          else fifo_walk first false mf mi q l1 ops' rs'
+      | v => (v, live, q)
       end
-  | _, _ => (VBad, q)
+  | _, _ => (VBad, live, q)
   end.
 
 Definition check_fifo (tagged : bool) (ops sizes rs probe : list sx) : verdict :=
@@ -180,11 +197,11 @@ Definition check_fifo (tagged : bool) (ops sizes rs probe : list sx) : verdict :
       match sx_ints bl with
       | None => VBad
       | Some bl =>
-          match fifo_walk mf mi uq_init [] ops rs with
-          | (VOk, q) =>
+          match fifo_walk VOk true mf mi uq_init [] ops rs with
+          | (VOk, true, q) =>
               vjoin (check_that (list_eqb Z.eqb (map zlen (blocks q)) bl) (VMismatch 8))
                     (check_that ((hp q =? h) && (qlen q =? l) && ((lastSz q =? last))) (VMismatch 9))
-          | (v, _) => v
+          | (v, _, _) => v
           end
       end
   | _, _, _, _ => VBad
@@ -239,7 +256,12 @@ Definition check_stress (P n : Z) (consumers : list (list Z)) (rest : list Z) : 
   fold_right vjoin (check_that (match others with [] => true | _ => false end) (VPropFail 5))
              (map per_p (zrange P)).
 
-Definition dec_vals (s : sx) : option (list Z) := sx_ints s.
+(* a nil element (never enqueued by the stress scenario) decodes to -1, which fails the checks *)
+Definition dec_vals (s : sx) : option (list Z) :=
+  match s with
+  | SList l => map_opt (fun x => match x with SInt v => Some v | SList [] => Some (-1) | _ => None end) l
+  | _ => None
+  end.
 
 (* ------------------------------------------------------------ dispatch *)
 Definition check (c : sx) : verdict :=
@@ -250,7 +272,10 @@ Definition check (c : sx) : verdict :=
       check_fifo false ops sizes rs probe
   | SList [SList [SInt 2; SInt _; SList sched]; SList [SList sizes; SList rs; SList probe]] =>
       check_fifo true sched sizes rs probe
-  | SList [SList [SInt 3; SInt P; SInt C; SInt n]; SList [SList consumers; rest]] =>
+  | SList [SList [SInt 3; SInt P; SInt C; SInt n]; SList [SList consumers; rest; SInt panics]] =>
+      (* panics: calls that ended in a run-time panic; -1: the goroutines dead-locked *)
+      if negb (panics =? 0) then VPropFail 7
+      else
       match map_opt dec_vals consumers, dec_vals rest with
       | Some cs, Some r => check_stress P n cs r
       | _, _ => VBad
